@@ -208,17 +208,20 @@ class Ctx:
 
 
 def _raised_in_harness(e: BaseException) -> bool:
-    """True when the innermost frame of the traceback is harness/engine code (a bug of ours, never a finding)."""
+    """True when the exception is a bug of ours, never a finding: its innermost frame is harness/engine code and it
+    is not an exception a stub deliberately injects into the code under test (a sqlfluff / OS error type that travelled
+    through real code before escaping)."""
+    here = __file__.rsplit("/symlite/", 1)[0] + "/"
     tb = e.__traceback__
-    last = None
+    files = []
     while tb is not None:
-        last = tb
+        files.append(tb.tb_frame.f_code.co_filename)
         tb = tb.tb_next
-    if last is None:
+    if not files or not files[-1].startswith(here):
         return False
-    fn = last.tb_frame.f_code.co_filename
-    here = __file__.rsplit("/symlite/", 1)[0]
-    return fn.startswith(here + "/")
+    through_real_code = any("/sqlfluff/" in f and not f.startswith(here) for f in files)
+    injected = type(e).__module__.startswith("sqlfluff") or isinstance(e, (OSError, KeyboardInterrupt))
+    return not (through_real_code and injected)
 
 
 def concrete_replay(harness: Callable[[Ctx], Any], model: dict, declared_exceptions: tuple = ()) -> Optional[str]:
